@@ -15,12 +15,16 @@ package main
 
 import (
 	"bufio"
+	"bytes"
+	"context"
 	"encoding/json"
 	"flag"
 	"fmt"
 	"os"
 	"strings"
 
+	"github.com/cosmos/cosmos-sdk/client"
+	undcmd "github.com/unification-com/mainchain/cmd/und/cmd"
 	undtypes "github.com/unification-com/mainchain/types"
 )
 
@@ -44,6 +48,10 @@ type denomRes struct {
 	Val  string    `json:"val"`
 	Err  string    `json:"err"`
 	Back *denomRes `json:"back,omitempty"`
+	// the same vector through the real `und convert` command (cmd/und/cmd GetDenomConversionCmd), in process: with the
+	// amount as given, and with the amount in a zero-padded spelling ("0" + amount: the same number)
+	Cli    *denomRes `json:"cli,omitempty"`
+	CliPad *denomRes `json:"cliPad,omitempty"`
 }
 
 type denomLine struct {
@@ -76,6 +84,33 @@ func convertOnce(amount, from, to string) (r denomRes) {
 	return denomRes{Ok: true, Out: out, Val: stripDenom(out, to)}
 }
 
+// cliOnce runs `und convert <amount> <from> <to>` in process and takes the right-hand side of the printed line.
+func cliOnce(amount, from, to string) (r denomRes) {
+	defer func() {
+		if p := recover(); p != nil {
+			r = denomRes{Ok: false, Err: fmt.Sprintf("panic: %v", p)}
+		}
+	}()
+	buf := new(bytes.Buffer)
+	clientCtx := client.Context{}.WithOutput(buf)
+	ctx := context.WithValue(context.Background(), client.ClientContextKey, &clientCtx)
+	c := undcmd.GetDenomConversionCmd()
+	c.SetArgs([]string{amount, from, to})
+	c.SilenceUsage, c.SilenceErrors = true, true
+	c.SetOut(new(bytes.Buffer))
+	c.SetErr(new(bytes.Buffer))
+	if err := c.ExecuteContext(ctx); err != nil {
+		return denomRes{Ok: false, Err: err.Error()}
+	}
+	line := strings.TrimSpace(buf.String())
+	i := strings.LastIndex(line, " = ")
+	if i < 0 {
+		return denomRes{Ok: false, Out: line, Err: "unexpected output"}
+	}
+	o := line[i+3:]
+	return denomRes{Ok: true, Out: o, Val: stripDenom(o, to)}
+}
+
 func cmdDenom(fs *flag.FlagSet, in, out string, seed int64) error {
 	var vecs []denomVec
 	if err := readJSONPlain(in, &vecs); err != nil {
@@ -105,6 +140,9 @@ func cmdDenom(fs *flag.FlagSet, in, out string, seed int64) error {
 		if res.Back == nil {
 			res.Back = &denomRes{}
 		}
+		c1 := cliOnce(v.Amount, v.From, v.To)
+		c2 := cliOnce("0"+v.Amount, v.From, v.To)
+		res.Cli, res.CliPad = &c1, &c2
 		if err := enc.Encode(denomLine{A: "Convert", Args: v, Res: res}); err != nil {
 			return err
 		}
